@@ -116,3 +116,53 @@ Proof.
   split; [repeat constructor; simpl; lia|]. split; [reflexivity|]. split; [vm_compute; reflexivity|].
   split; [vm_compute; reflexivity|]. eexists; eexists; split; vm_compute; reflexivity.
 Qed.
+
+
+Require Import Pams.Sim Pams.SimInv Pams.SimBooks Pams.SimMarketLift.
+
+(* NOTHING IS LOST IN ANY SIMULATION.  theories/SimMarketLift.v proves that a market of a run only ever changes through the Level-M
+   operations (and a fundamental-price shock) and that the run's records naming it are its Level-M records, so EVERY invariant that
+   the Level-M operations preserve holds for every market of every run (market_invariant_of_every_run).  With the accounting
+   invariant: for every configuration with distinct market ids, every tape of runner decisions, every agent behaviour (normal and
+   high-frequency), every set of events (halts, shocks, price limits) and every fundamental path, if the accepted orders have positive
+   volume and time-to-live (Order.__init__ enforces it) then for every market of the final state and every order accepted on it:
+   accepted volume = its fills + what still rests + the volume of its first cancellation / expiry record. *)
+Theorem C04_nothing_lost_in_every_run : forall c tape batches funds,
+  NoDup (map mc_id (c_markets c)) ->
+  let s := run c tape batches funds in
+  valid_tr s -> forall x, In x (s_markets s) ->
+  let rs := of_mkt (m_id (mk_m x)) (truths (events_of s)) in
+  forall i v0, accepted rs i = Some v0 ->
+    v0 = filled rs i + rest_vol (mk_m x) i + tv rs i /\ (rest_vol (mk_m x) i <> 0 -> term rs i = None) /\ 0 <= rest_vol (mk_m x) i.
+Proof. exact nothing_lost_in_every_run. Qed.
+Print Assumptions C04_nothing_lost_in_every_run.
+
+(* the general statement it is an instance of *)
+Theorem C04_every_market_invariant_holds_in_every_run : forall (I : market -> list record -> Prop),
+  (forall m rs o m' recs, life_ok m -> gone_mkt m -> I m rs -> valid_op o -> step_rec m o = Ok (m', recs) -> I m' (rs ++ recs)) ->
+  (forall m rs f, length f = length (m_fund m) -> I m rs -> I (RecordSet.set m_fund (fun _ => f) m) rs) ->
+  forall c tape batches funds,
+  NoDup (map mc_id (c_markets c)) ->
+  (forall mc, In mc (c_markets c) -> I (init_market (mc_id mc) (mc_tick mc) (mc_mp0 mc)) []) ->
+  let s := run c tape batches funds in
+  valid_tr s -> forall x, In x (s_markets s) -> I (mk_m x) (of_mkt (m_id (mk_m x)) (truths (events_of s))).
+Proof. exact market_invariant_of_every_run. Qed.
+Print Assumptions C04_every_market_invariant_holds_in_every_run.
+
+Example C04_run_nonvacuous :
+  let c := mkCfg [mkMC 0 (1#1) (100#1) None 1] [mkAC 0 false (1000#1) [(0, 10)]; mkAC 1 false (1000#1) [(0, 10)]]
+                 [mkSC 0 2 true true 2 1 (0#1)] [] in
+  let tape := [TPerm [0; 1]; TPerm [0; 1]; TDraw (1#2); TDraw (1#2);
+               TPerm [0; 1]; TPerm [0]; TDraw (1#2)]%nat in
+  let batches := [(0, [RNew 1 0 0 false (Some (100#1)) 5 None]); (1, [RNew 2 1 0 true (Some (100#1)) 2 None]);
+                  (0, [Sim.RCancel 1 0 0]); (1, [])] in
+  let funds := [(0, 0, 100#1); (0, 1, 100#1); (0, 2, 100#1)] in
+  let s := run c tape batches funds in
+  valid_tr s /\ NoDup (map mc_id (c_markets c)) /\
+  let rs := of_mkt 0 (truths (events_of s)) in
+  (* order 0: 5 accepted, 2 filled, 3 reported by the cancel, nothing rests *)
+  accepted rs 0 = Some 5 /\ filled rs 0 = 2 /\ tv rs 0 = 3 /\ accepted rs 1 = Some 2 /\ filled rs 1 = 2 /\ term rs 1 = None.
+Proof.
+  cbv zeta. split; [|split; [repeat constructor; simpl; tauto|vm_compute; repeat split]].
+  unfold valid_tr. vm_compute truths. repeat constructor; simpl; try lia; intros k Hk; try discriminate; inversion Hk; lia.
+Qed.
